@@ -1676,6 +1676,26 @@ theorem xrun_from_start {tc : TCfg} (R : TRepaired tc) (start : XOp) (hstart : s
   rw [hs]
   exact hr
 
+/-- Between two operations the library holds a reference of its own on the root window at most: every window's count
+    is known exactly. -/
+theorem ghost_covers (top : Top) (i : Nat) : top.ghost.covers i := by
+  unfold Top.ghost
+  cases top.inst with
+  | none => exact .inr rfl
+  | some j =>
+    simp only
+    split
+    · exact .inr rfl
+    · by_cases h0 : i = 0
+      · exact .inl h0
+      · exact .inr (by simp [instGhost, h0])
+
+theorem TopInv.exact {top : Top} (T : TopInv top) (i : Nat) (w : Win) (hl : LiveW top.st.tree i w) :
+    w.refcount = ((getX top.st i).appRefs : Int) + (top.ghost.win i : Int) := by
+  have h1 := (T.f.inv.wref i w hl).1
+  have h2 := (T.f.inv.wref i w hl).2 (ghost_covers top i)
+  omega
+
 /-- What the invariant says about the objects this layer adds. -/
 theorem TopInv.facts {top : Top} (T : TopInv top) :
     -- the terminal's binding list holds the root window's handlers only while the root window lives
